@@ -106,6 +106,7 @@ Colls2 == {c \in CollsOver(Inner2) : WellFormed(c)}
 Universe == ScalarAtoms \cup Strings \cup Colls1 \cup NsMaps \cup Metas \cup (IF Depth >= 2 THEN Colls2 ELSE {})
 
 Cfgs == [dup : BOOLEAN, meta : BOOLEAN, nsmaps : BOOLEAN]
+NoDup == [dup |-> FALSE, meta |-> FALSE, nsmaps |-> FALSE]
 
 (* ------------------------------- printing ------------------------------------------------ *)
 (* tokens are tuples: <<"t", x>> punctuation / white space, <<"c", class>> a raw character inside a   *)
@@ -266,24 +267,40 @@ Outcome(x, c, d) ==
   ELSE IF Len(back) # 1 THEN "forms"
   ELSE "differs"
 
-VARIABLES v, cfg
-vars == <<v, cfg>>
-Init == v \in Universe /\ cfg \in Cfgs
-Next == UNCHANGED vars
+(* only the print-control Vars that can influence the text of x are varied (plus all of them on) *)
+RECURSIVE HasTy(_, _)
+HasTy(x, tys) == x.ty \in tys \/ \E i \in 1..Len(x.xs) : HasTy(x.xs[i], tys)
+CfgsFor(x) == {c \in Cfgs : (c.dup /\ c.meta /\ c.nsmaps)
+                             \/ ((c.dup => HasDec(x)) /\ (c.meta => HasTy(x, {"meta"}))
+                                 /\ (c.nsmaps => HasTy(x, MapTypes)))}
+
+(* the universe in parts, so that TLC's workers share the enumeration *)
+CollTypes == <<"list", "vec", "set", "queue", "pylist", "pytuple", "pyset", "map", "pydict">>
+NParts == 1 + Len(StrClasses) + Len(CollTypes)
+Part(i) ==
+  IF i = 1 THEN ScalarAtoms \cup NsMaps \cup Metas \cup {Str(<<>>)}
+  ELSE IF i <= 1 + Len(StrClasses) THEN {x \in Strings : x.cs # <<>> /\ x.cs[1] = StrClasses[i - 1]}
+  ELSE {x \in Colls1 \cup (IF Depth >= 2 THEN Colls2 ELSE {}) : x.ty = CollTypes[i - 1 - Len(StrClasses)]}
+
+VARIABLES v, cfg, part
+vars == <<v, cfg, part>>
+None == Atom("nil", "none")
+Init == v = None /\ cfg = NoDup /\ part = 0
+Next == \/ part = 0 /\ part' \in 1..NParts /\ UNCHANGED <<v, cfg>>
+        \/ part > 0 /\ v = None /\ v' \in Part(part) /\ cfg' \in CfgsFor(v') /\ UNCHANGED part
 Spec == Init /\ [][Next]_vars
 
-RoundTrip == Claims(v, cfg) => Outcome(v, cfg, Dev) = "same"
-Idempotent == (Claims(v, cfg) /\ Outcome(v, cfg, Dev) = "same") =>
+RoundTrip == (v # None /\ Claims(v, cfg)) => Outcome(v, cfg, Dev) = "same"
+Idempotent == (v # None /\ Claims(v, cfg) /\ Outcome(v, cfg, Dev) = "same") =>
                  Pr(Read(Pr(v, cfg, Dev), Dev)[1], cfg, Dev) = Pr(Expected(v, cfg), cfg, Dev)
 (* anti-vacuity: the decimal clause really needs *print-dup* *)
-NoDup == [dup |-> FALSE, meta |-> FALSE, nsmaps |-> FALSE]
 ASSUME \E a \in DecAtoms : Read(Pr(Atom("dec", a), NoDup, {}), {}) # <<Atom("dec", a)>>
 
 (* ------------------------------- generation ----------------------------------------------- *)
 (* one line per (value, configuration) that claims readability: the required outcome is "same";   *)
 (* x / g / xg = the outcome if the printer wrote \xNN escapes / the reader read hex digits        *)
 (* greedily / both (the pinned tree)                                                              *)
-EmitV == Claims(v, cfg) =>
+EmitV == (v # None /\ Claims(v, cfg)) =>
            PrintT(<<"BEH", ToJson([v |-> v, cfg |-> cfg, x |-> Outcome(v, cfg, {"XEscape"}),
                                     g |-> Outcome(v, cfg, {"GreedyHex"}),
                                     xg |-> Outcome(v, cfg, {"XEscape", "GreedyHex"})])>>)
